@@ -58,14 +58,16 @@ theorem observed_tables_cover_domain :
 
 /-- stated directly on the outcomes observed on the live library (no model involved): outside the
     excluded cells every observed conversion outcome is acceptable to the reference, and every
-    observed mixed-unit `np.add` with a non-complex second operand that is not a 1-byte integer
-    returned float or complex data -/
+    observed mixed-unit `np.add` whose second operand is not a 1-byte integer returned float or
+    complex data — complex exactly when one of the operands is complex -/
 theorem observed_outcomes_satisfy_property :
     observedRoutes.all (fun (r, d, q, o) =>
         d.kind == .b || knownExcluded r d q || (r == .toValue && q) || acceptable d o) = true
     ∧ observedBinary.all (fun (a, b, o) =>
-        a.kind == .b || b.kind == .b || b.kind == .c || mayRaise b ||
-          (match o with | .ok r => r.kind == .f || r.kind == .c | .error _ => false)) = true := by
+        a.kind == .b || b.kind == .b || mayRaise b ||
+          (match o with
+           | .ok r => (r.kind == .f || r.kind == .c) && ((r.kind == .c) == (a.kind == .c || b.kind == .c))
+           | .error _ => false)) = true := by
   decide +kernel
 
 end Unyt.C17Obs
